@@ -154,6 +154,35 @@ MonMeta(m, ev) ==
         >>)
   IN  [XAdd(m, ev.h, tags) EXCEPT !.n = @ + 1, !.judged = @ + 1]
 
+(******************* C07 overflow clause: queries near usize::MAX ***********)
+\* 64-bit naturals as four base-65536 limbs, least significant first (TLC integers are 32-bit); <<>> = None
+U64Leq(a, b) ==      \* a <= b
+  \/ a[4] < b[4]
+  \/ (a[4] = b[4] /\ a[3] < b[3])
+  \/ (a[4] = b[4] /\ a[3] = b[3] /\ a[2] < b[2])
+  \/ (a[4] = b[4] /\ a[3] = b[3] /\ a[2] = b[2] /\ a[1] <= b[1])
+U64Half(a) ==        \* floor(a / 2)
+  << (a[1] \div 2) + (a[2] % 2) * 32768, (a[2] \div 2) + (a[3] % 2) * 32768, (a[3] \div 2) + (a[4] % 2) * 32768, a[4] \div 2 >>
+TwoPow61 == <<0, 0, 0, 8192>>
+
+\* a value every correct answer must reach: the conversion of n units can need at least this many output units
+QueryLowerBound(ev) ==
+  IF ev.side = "dec" THEN
+    (IF ev.used = "replacement" THEN <<0, 0, 0, 0>>
+     ELSE IF ev.used \in Utf16Names THEN U64Half(ev.n)
+     ELSE ev.n)
+  ELSE (IF ev.q \in {"u16", "u16if"} THEN ev.n ELSE U64Half(ev.n))
+
+MonQueryOverflow(m, ev) ==
+  LET tags == XTags(<<
+        <<ev.panic, "C07.query-panic">>,
+        \* every formula is at most 4n + 16: for n <= 2^61 the result fits and None is a wrong answer
+        <<~ev.panic /\ ev.ret = <<>> /\ U64Leq(ev.n, TwoPow61), "C07.none-without-overflow">>,
+        \* a wrapped number is small: Some(v) must reach the lower bound
+        <<~ev.panic /\ ev.ret # <<>> /\ ~U64Leq(QueryLowerBound(ev), ev.ret), "C07.wrapped-or-too-small">>
+        >>)
+  IN  [XAdd(m, ev.h, tags) EXCEPT !.n = @ + 1, !.judged = @ + 1]
+
 XStep(m, ev) ==
   CASE ev.ev = "LL" -> MonLabelList(m, ev)
     [] ev.ev = "LS" -> MonLabelSweep(m, ev)
@@ -161,5 +190,6 @@ XStep(m, ev) ==
     [] ev.ev = "OE" -> MonOneShotEncode(m, ev)
     [] ev.ev = "BM" -> MonForBom(m, ev)
     [] ev.ev = "MD" -> MonMeta(m, ev)
+    [] ev.ev = "QO" -> MonQueryOverflow(m, ev)
     [] OTHER -> XAdd(m, 0, <<"proto.unknown-event">>)
 =============================================================================
